@@ -33,7 +33,8 @@ OBLIGATIONS = {"acyclic": 300, "cyclic": 100, "field:default": 100,
                "terminal-cell": 200, "reduced-max": 20, "random-forest": 5,
                "inputs-unaltered": 300, "dtype-variant": 100, "layout-variant": 50,
                "field:wide-mantissa": 50, "field:tiny": 50, "bounded-grid": 100,
-               "flowdir-nodata:non-default": 50, "field-nodata:nan": 20}
+               "flowdir-nodata:non-default": 50, "field-nodata:nan": 20,
+               "field:other-geometry": 50}
 
 
 def mods():
@@ -59,7 +60,7 @@ def _layout(a, layout):
 
 
 def make_grids(codes, field, nodata, fd_dtype="i8", ta_dtype="f8", layout="C",
-               bounded=False, fd_nodata=None):
+               bounded=False, fd_nodata=None, other_geometry=False):
     g = mods()
     codes = np.asarray(codes, dtype=np.int64)
     nr, nc = codes.shape
@@ -70,8 +71,9 @@ def make_grids(codes, field, nodata, fd_dtype="i8", ta_dtype="f8", layout="C",
         fdt = np.int64
     if fd_dtype == "f8" and np.abs(codes).max() > 2 ** 53:
         fdt = np.int64
-    if fd_nodata is not None and fdt is np.float64:
-        fd = g.Grid("fd", nc, nr, dtype=fdt, nodata=fd_nodata)
+    if fd_nodata is not None and (fdt is np.float64 or float(fd_nodata) == int(fd_nodata)):
+        fd = g.Grid("fd", nc, nr, dtype=fdt, nodata=fd_nodata if fdt is np.float64
+                    else int(fd_nodata))
     else:
         fd = g.Grid("fd", nc, nr, dtype=fdt)
     fd.data = _layout(codes, layout)
@@ -87,7 +89,11 @@ def make_grids(codes, field, nodata, fd_dtype="i8", ta_dtype="f8", layout="C",
         if isinstance(nodata, float) and math.isnan(nodata) and \
                 np.dtype(tdt).kind in "iu":
             tdt = np.float64          # an integer grid cannot hold a NaN marker
-        ta = g.Grid("ta", nc, nr, dtype=tdt, nodata=nodata)
+        # (the field may sit on another geo-reference than the flow grid: accumulation
+        # goes cell by cell, by position)
+        geo = {} if not other_geometry else {"cellsize": 0.25, "xllcorner": 1234.5,
+                                             "yllcorner": -77.0}
+        ta = g.Grid("ta", nc, nr, dtype=tdt, nodata=nodata, **geo)
         ta.data = _layout(f, layout)
         if bounded and hasattr(type(ta), "mindata"):
             # documented Grid feature: admissible range of the *cell values* (here
@@ -131,7 +137,10 @@ def run_case(ctx, case):
     ctx.evaluated()
     fd, ta = make_grids(codes, field, nodata, case.get("fd_dtype", "i8"),
                         case.get("ta_dtype", "f8"), case.get("layout", "C"),
-                        bool(case.get("bounded", False)), case.get("fd_nodata"))
+                        bool(case.get("bounded", False)), case.get("fd_nodata"),
+                        bool(case.get("other_geometry", False)))
+    if case.get("other_geometry") and ta is not None:
+        ctx.tag("field:other-geometry")
     if ta is None:
         # the default unit field inherits the no-data value of the flow grid given
         nodata = float(fd.nodata)
@@ -243,6 +252,11 @@ def run(ctx):
                         "ta_dtype": ["f8", "f4", "i8"][(idx // 4) % 3],
                         "layout": ["C", "F", "C", "T", "C", "S"][(idx // 3) % 6],
                         "bounded": (idx // 5) % 4 == 0}
+                if nm == "default" and case["fd_dtype"] in ("i8", "i4"):
+                    # the marker of the flow grid may itself be a valid direction code
+                    case["fd_nodata"] = [0, 4, 1, 64, -1, 2, 255][(idx // 4) % 7]
+                if nm in ("positive", "negatives") and (idx // 3) % 4 == 1:
+                    case["other_geometry"] = True
                 if nm == "default" and case["fd_dtype"] == "f8":
                     case["fd_nodata"] = [float("nan"), -0.5, float("inf"), -9999.0,
                                          float("-inf")][(idx // 4) % 5]
